@@ -23,7 +23,8 @@ type ProbeCfg struct {
 	Stores []sopenv.StoreOpts `json:"stores"`
 	Keys   int                `json:"keys"`
 	Out    string             `json:"out"`
-	Dump   bool               `json:"dump"` // Observe every store instead of running a reader transaction
+	Dump   bool               `json:"dump"`  // Observe every store instead of running a reader transaction
+	Audit  bool               `json:"audit"` // orphan audit: files on disk versus what a cold traversal reaches
 }
 
 // reader runs one reader transaction over all stores: Count, Get of every key, Scan; then commits.
@@ -82,7 +83,19 @@ func runProbe(cfg Config) {
 	env := sopenv.New(pc.Folder, decor.NewHub())
 	env.Hub.Record = false
 	r := &Runner{Env: env, Rec: &Recorder{}, MaxTime: 30 * time.Second}
-	if pc.Dump {
+	if pc.Audit {
+		names := []string{}
+		for _, o := range pc.Stores {
+			names = append(names, o.Name)
+		}
+		a := env.Audit(ctx, names)
+		detail, _ := json.Marshal(a)
+		d := string(detail)
+		if len(d) > 1500 {
+			d = d[:1500]
+		}
+		r.Rec.Add(Ev{Ev: "Audit", N: len(a.OrphanBlobs), Count: len(a.OrphanHandles), K: len(a.Logs), Ok: len(a.Unreadable) == 0, Note: d})
+	} else if pc.Dump {
 		r.Observe(ctx, &Program{Stores: pc.Stores})
 	} else {
 		r.reader(ctx, pc.Label, pc.Stores, pc.Keys)
@@ -100,11 +113,20 @@ func childObserve(r *Runner, folder, label string, stores []sopenv.StoreOpts) {
 	childRun(r, folder, label, stores, 0, true)
 }
 
+// childAudit runs the orphan audit in a fresh OS process (cold caches) and records the Audit event.
+func childAudit(r *Runner, folder string, stores []sopenv.StoreOpts) {
+	auditMode = true
+	childRun(r, folder, "audit", stores, 0, false)
+	auditMode = false
+}
+
+var auditMode bool
+
 func childRun(r *Runner, folder, label string, stores []sopenv.StoreOpts, keys int, dump bool) {
 	dir := filepath.Dir(folder)
 	cfgp := filepath.Join(dir, "probe-"+label+".json")
 	outp := filepath.Join(dir, "probe-"+label+".out.json")
-	c := Config{Probe: &ProbeCfg{Folder: folder, Label: label, Stores: stores, Keys: keys, Out: outp, Dump: dump}}
+	c := Config{Probe: &ProbeCfg{Folder: folder, Label: label, Stores: stores, Keys: keys, Out: outp, Dump: dump, Audit: auditMode}}
 	data, _ := json.Marshal(c)
 	os.WriteFile(cfgp, data, 0o644)
 	cmd := exec.Command(os.Args[0], "probe", cfgp)
